@@ -34,6 +34,9 @@ NAME_POOL = [
     ("olive\u00a0oil",), ("a\u3000b",), ("form\x0cfeed",), ("thin\u2009space",),
     # decomposed accents (letter + combining mark): not the same text as the precomposed spelling, and longer
     ("cre\u0300me bru\u0302le\u0301e",), ("cafe\u0301",), ("jalapen\u0303o",),
+    # names that begin like a preposition / its second word, or like a unit; text between two numbers in either case
+    ("thermidor sauce",), ("these",), ("offal",), ("theo",), ("grams of joy",),
+    ("dough for ", 2, " Large and ", 3, " small loaves"), ("dough for ", 2, " large and ", 3, " small loaves"),
 ]
 STEP_POOL = [("fry",), ("chop",), ("boil",), ("mix well",), ("bake at 180",), ("simmer ", 10, " min",), ("slice, thinly",), ("it's done",), ("2 minute rest",), ("rest ", 0, " min"), ("prove ", 0.0, " h")]
 
@@ -380,7 +383,7 @@ def svs_key(name):
 def gen_number(rng, small=False):
     k = rng.random()
     if k < 0.45:
-        return rng.choice([1, 2, 3, 4, 10, 100, 250, 500] if small else [1, 2, 3, 5, 10, 12, 100, 250, 1000, rng.randint(1, 10 ** 5)])
+        return rng.choice([1, 2, 3, 4, 10, 100, 250, 500] if small else [1, 2, 3, 5, 10, 12, 100, 250, 1000, 0, rng.randint(1, 10 ** 5)])
     if k < 0.75:
         return Fraction(rng.randint(1, 30), rng.choice([2, 3, 4, 5, 8, 16, 100]))
     return rng.choice([0.5, 1.5, 0.25, 2.5, 0.1, 1.0, 100.0, 12.75, rng.randint(1, 9999) / 100])
@@ -409,6 +412,11 @@ def gen_quantity(rng, total=None):
                     if w3 != w and "e" not in repr(w3) and w3 > 0:
                         w = int(w3) if w3.is_integer() else w3
                 return ("qty", w, n, rng.choice(["", " "]), prep)
+        if rng.random() < 0.3 and not isinstance(v, float):
+            # the same unit, a little or a lot off the whole amount: not the whole, so never folded
+            v = v * rng.choice([Fraction(1, 2), 2, Fraction(96, 100), Fraction(104, 100), Fraction(99, 100), Fraction(3, 4)])
+            if isinstance(v, Fraction) and v.denominator == 1:
+                v = int(v)
         if u is None or u.lower() in UNITS:
             return ("qty", v, u, rng.choice(["", " "]) if u else "", prep if u else "")
         return ("xqty", v, u, rng.choice(["", " "]), prep)
@@ -481,6 +489,30 @@ CORPUS = [
     [[(None, False, _leaf("carrots", ("qty", 3, None, "", ""))),
       ([("veg",), ("water",)], False, ("step", ("boil",), [_leaf("carrots")])),
       (None, False, ("step", ("serve",), [_leaf("veg"), ("step", ("make gravy",), [_leaf("water"), _leaf("granules")])]))]],
+    # part of an amount given in a free-form unit (never the whole: not folded)
+    [[(None, False, _leaf("thyme", ("xqty", 4, "sprigs", " ", ""))),
+      (None, False, ("step", ("roast",), [_leaf("chicken"), _leaf("thyme", ("xqty", 2, "sprigs", " ", ""))]))]],
+    [[(None, False, _leaf("thyme", ("xqty", 4, "sprigs", " ", ""))),
+      (None, False, ("step", ("roast",), [_leaf("chicken"), _leaf("thyme", ("xqty", 4, "sprigs", " ", ""))]))]],
+    # a use of nothing at all / of everything of nothing
+    [[(None, False, _leaf("spam", ("qty", 100, "g", "", ""))), (None, False, ("step", ("fry",), [_leaf("spam", ("qty", 0, "g", "", "")), _leaf("eggs")]))]],
+    [[(None, False, _leaf("spam", ("qty", 0, "g", "", ""))), (None, False, ("step", ("fry",), [_leaf("spam", ("qty", 0, "kg", " ", " of")), _leaf("eggs")]))]],
+    [[(None, False, _leaf("spam", ("qty", 0, None, "", ""))), (None, False, ("step", ("fry",), [_leaf("spam", ("qty", 5, None, "", "")), _leaf("eggs")]))]],
+    # a single use a few per cent off the whole amount
+    [[(None, False, _leaf("spam", ("qty", 1, "kg", "", ""))), (None, False, ("step", ("fry",), [_leaf("spam", ("qty", 960, "g", "", " of")), _leaf("eggs")]))]],
+    [[(None, False, _leaf("peas", ("qty", 100, None, "", ""))), (None, False, ("step", ("boil",), [_leaf("peas", ("qty", 103, None, "", "")), _leaf("water")]))]],
+    # output names with text between two numbers that differs in letter case only: the same name
+    [[([("dough for ", 2, " Large and ", 3, " small loaves")], False, ("step", ("knead",), [_leaf("flour")])),
+      ([("dough for ", 2, " large and ", 3, " small loaves")], False, ("step", ("prove",), [_leaf("yeast")]))]],
+    [[([("Big ", 4, " Rolls")], False, ("step", ("shape",), [_leaf("dough")]))], [([("big ", 4, " rolls")], True, ("step", ("bake",), [_leaf("other dough")]))]],
+    # a name that begins like the second word of the preposition, used by proportion and by remainder
+    [[([("thermidor",)], False, ("step", ("boil",), [_leaf("lobster", ("qty", 1, None, "", ""))])),
+      (None, False, ("step", ("serve",), [_leaf("thermidor", ("prop", Fraction(1, 2), " of")), _leaf("rice")])),
+      (None, False, ("step", ("freeze",), [_leaf("thermidor", ("rem", "rest", " of"))]))]],
+    [[(None, False, _leaf("thermidor sauce", ("qty", 1, "can", " ", " of"))), (None, False, _leaf("offal", ("qty", 200, "g", "", "")))]],
+    # an ingredient under two single-input steps defines its name
+    [[(None, False, ("step", ("fried",), [("step", ("sliced",), [_leaf("spam", ("qty", 1, "can", " ", " of"))])])),
+      (None, False, ("step", ("serve",), [_leaf("spam"), _leaf("eggs")]))]],
     # a name redefined in a later block
     [[([("batter",)], False, ("step", ("whisk",), [_leaf("eggs", ("qty", 2, None, "", "")), _leaf("flour", ("qty", 100, "g", "", ""))]))],
      [(None, False, _leaf("milk")), ([("batter",)], True, _leaf("egg", ("qty", 1, None, "", "")))]],
